@@ -1421,17 +1421,18 @@ func captureOracle(c CaptureCase, o CaptureObs, res *vh.Result) {
 	}
 }
 
-func coqCapture(i int, c CaptureCase, o CaptureObs) string {
+// coqEvents prints a writer history; body events carry the count that was returned.
+func coqEvents(evs []Ev, returned []int) string {
 	var es []string
 	w := 0
 	body := func(name string, n int) {
-		if w < len(o.Returned) {
-			n = o.Returned[w]
+		if w < len(returned) {
+			n = returned[w]
 		}
 		w++
 		es = append(es, fmt.Sprintf("%s %d", name, n))
 	}
-	for _, e := range c.Events {
+	for _, e := range evs {
 		switch e.K {
 		case "wh":
 			es = append(es, "WriteHeader "+cz(e.N))
@@ -1451,7 +1452,11 @@ func coqCapture(i int, c CaptureCase, o CaptureObs) string {
 			es = append(es, "CtlFlush")
 		}
 	}
-	return fmt.Sprintf("(%d, [%s], (%s, %d), (%s, %d))", i, strings.Join(es, "; "), cz(o.Status), o.Bytes, cz(o.SentStatus), o.SentLen)
+	return "[" + strings.Join(es, "; ") + "]"
+}
+
+func coqCapture(i int, c CaptureCase, o CaptureObs) string {
+	return fmt.Sprintf("(%d, %s, (%s, %d), (%s, %d))", i, coqEvents(c.Events, o.Returned), cz(o.Status), o.Bytes, cz(o.SentStatus), o.SentLen)
 }
 
 var codes = []int{200, 200, 201, 202, 301, 400, 404, 418, 500, 503, 599, 999}
@@ -1560,6 +1565,7 @@ type StackCase struct {
 	Wrap     bool     `json:"wrap,omitempty"`
 	Client   []string `json:"client,omitempty"` // client stack of that call, first = outermost (default: traced)
 	Shape    string   `json:"shape,omitempty"`  // HTTP request shape of that call
+	Events   []Ev     `json:"events,omitempty"` // http: what the handler does with its ResponseWriter
 }
 
 type StackObs struct {
@@ -1572,7 +1578,12 @@ type StackObs struct {
 	Fwd       bool
 	Draw      int
 	Matches   [][]bool // per trace layer
-	Panic     string   `json:",omitempty"`
+	LogIDs    []B      // the id every Log layer printed, outermost first
+	Reports   [][2]int // http: status / bytes every Log layer printed
+	RecCode   int      // http: what the recorder underneath received
+	RecLen    int
+	Returned  []int
+	Panic     string `json:",omitempty"`
 }
 
 var transparentLayers = map[string][]string{
@@ -1804,7 +1815,7 @@ func runStack(c StackCase) (o StackObs) {
 		}
 	}()
 	g := &idGen{trace: string(c.NewTrace), span: string(c.NewSpan)}
-	ml := &memLogger{}
+	var loggers []*memLogger // one per Log layer, outermost first
 	cctx, stop := context.WithCancel(context.Background())
 	defer stop() // releases the canceler's goroutine
 	adaptive := false
@@ -1840,6 +1851,10 @@ func runStack(c StackCase) (o StackObs) {
 				ms[i] = re.MatchString(matchTarget(c.Kind, c.Path))
 			}
 			o.Matches = append(o.Matches, ms)
+		}
+		ml := &memLogger{}
+		if l.K == "log" || l.K == "logctx" {
+			loggers = append(loggers, ml)
 		}
 		logFromCtx := func(context.Context) middleware.Logger { return ml }
 		switch c.Kind + "/" + l.K {
@@ -1888,7 +1903,7 @@ func runStack(c StackCase) (o StackObs) {
 	o.Draw, _ = seedDraw(c.Seed, n)
 	switch c.Kind {
 	case "http":
-		var h http.Handler = http.HandlerFunc(func(w http.ResponseWriter, r *http.Request) { see(r.Context()); _, _ = w.Write([]byte("ok")) })
+		var h http.Handler = http.HandlerFunc(func(w http.ResponseWriter, r *http.Request) { see(r.Context()); o.Returned = play(w, c.Events) })
 		for i := len(hs) - 1; i >= 0; i-- {
 			h = hs[i](h)
 		}
@@ -1902,7 +1917,9 @@ func runStack(c StackCase) (o StackObs) {
 		if c.Parent != nil {
 			r.Header[hParent] = bs(c.Parent)
 		}
-		h.ServeHTTP(httptest.NewRecorder(), r)
+		rec := httptest.NewRecorder()
+		h.ServeHTTP(rec, r)
+		o.RecCode, o.RecLen = rec.Code, rec.Body.Len()
 	default:
 		m := metadata.MD{}
 		for _, hv := range c.Headers {
@@ -1919,6 +1936,21 @@ func runStack(c StackCase) (o StackObs) {
 			_, _ = chainUnary(us, &grpc.UnaryServerInfo{FullMethod: c.Path}, func(ctx context.Context, req any) (any, error) { see(ctx); return nil, nil })(ctx, nil)
 		} else {
 			_ = chainStream(ss, &grpc.StreamServerInfo{FullMethod: c.Path}, func(srv any, st grpc.ServerStream) error { see(st.Context()); return nil })(nil, &fakeServerStream{ctx: ctx})
+		}
+	}
+	for _, ml := range loggers {
+		if len(ml.entries) != 2 {
+			o.Panic = fmt.Sprintf("a Log layer wrote %d entries for one request", len(ml.entries))
+			return
+		}
+		id, _ := kv(ml.entries[1], "id")
+		o.LogIDs = append(o.LogIDs, B(fmt.Sprint(id)))
+		if c.Kind == "http" {
+			st, _ := kv(ml.entries[1], "status")
+			by, _ := kv(ml.entries[1], "bytes")
+			sti, _ := st.(int)
+			byi, _ := by.(int)
+			o.Reports = append(o.Reports, [2]int{sti, byi})
 		}
 	}
 	return
@@ -1943,6 +1975,62 @@ func stackOracle(c StackCase, o StackObs, res *vh.Result) {
 		names[i] = l.K
 	}
 	order := strings.Join(names, " > ")
+	// every Log layer below the (last) request-id layer prints the id the handler sees;
+	// every http Log layer prints the status / bytes that were written
+	lastRid, debug, nlog := -1, false, 0
+	for i, l := range c.Layers {
+		if l.K == "rid" {
+			lastRid = i
+		}
+		debug = debug || l.K == "debug"
+	}
+	var eff []Ev
+	for _, e := range c.Events {
+		if !(debug && (e.K == "f" || e.K == "cf")) {
+			eff = append(eff, e) // Debug's writer wrapper is no Flusher: flushes reach nothing
+		}
+	}
+	for i, l := range c.Layers {
+		if l.K != "log" && l.K != "logctx" {
+			continue
+		}
+		if nlog < len(o.LogIDs) {
+			if lastRid >= 0 && i > lastRid && (o.Rid == nil || o.LogIDs[nlog] != *o.Rid) {
+				fail("log-request-id-differs", fmt.Sprintf("stack %s: Log layer %d printed id %q, the handler's context carries %q", order, i, o.LogIDs[nlog], deref(o.Rid)))
+			}
+			if o.LogIDs[nlog] == "" {
+				fail("log-request-id-differs", fmt.Sprintf("stack %s: Log layer %d printed an empty id", order, i))
+			}
+		}
+		if c.Kind == "http" && nlog < len(o.Reports) {
+			want := o.RecCode
+			if !touches(eff) {
+				want = 0
+			}
+			if o.Reports[nlog][0] != want || o.Reports[nlog][1] != o.RecLen {
+				// recorded finding: a capture nested in another capture, with a Debug layer (whose writer
+				// wrapper is no http.Flusher) further out, records the implicit 200 of a flush that goes nowhere
+				sig := "log-status-bytes-differ"
+				debugAfter, outerIsLog, hasFlush := false, false, false
+				for j, l2 := range c.Layers {
+					if j > i && l2.K == "debug" {
+						debugAfter = true
+					}
+					if j < i && (l2.K == "log" || l2.K == "logctx" || l2.K == "debug") {
+						outerIsLog = l2.K != "debug"
+					}
+				}
+				for _, e := range c.Events {
+					hasFlush = hasFlush || e.K == "f" || e.K == "cf"
+				}
+				if debug && !debugAfter && outerIsLog && hasFlush && o.Reports[nlog][1] == o.RecLen {
+					sig = "log/flush-recorded-over-non-flusher"
+				}
+				fail(sig, fmt.Sprintf("stack %s, handler %v: Log layer %d printed status=%d bytes=%d, written: status %d, %d bytes", order, c.Events, i, o.Reports[nlog][0], o.Reports[nlog][1], want, o.RecLen))
+			}
+		}
+		nlog++
+	}
 	for _, l := range c.Layers {
 		switch l.K {
 		case "rid":
@@ -1986,7 +2074,7 @@ func stackOracle(c StackCase, o StackObs, res *vh.Result) {
 
 func coqStack(i int, c StackCase, o StackObs) string {
 	ls := make([]string, len(c.Layers))
-	nt := 0
+	nt, nl := 0, 0
 	for j, l := range c.Layers {
 		switch l.K {
 		case "rid":
@@ -2003,6 +2091,15 @@ func coqStack(i int, c StackCase, o StackObs) string {
 			nt++
 			q := TReq{Path: c.Path, Trace: c.Trace, Parent: c.Parent, NewTrace: c.NewTrace, NewSpan: c.NewSpan}
 			ls[j] = fmt.Sprintf("LTrace %s %s", coqTOpts(l.Trace), coqReq(q, c.Kind, ms, o.Draw))
+		case "log", "logctx":
+			fresh := ""
+			if nl < len(o.LogIDs) {
+				fresh = string(o.LogIDs[nl])
+			}
+			nl++
+			ls[j] = "LLog " + cbytes(fresh)
+		case "debug":
+			ls[j] = "LDebug"
 		default:
 			ls[j] = "LTransparent"
 		}
@@ -2015,8 +2112,31 @@ func coqStack(i int, c StackCase, o StackObs) string {
 	if o.Fwd {
 		fwd = fmt.Sprintf("(Some (%s, %s))", clist(bs(o.FwdTrace)), clist(bs(o.FwdParent)))
 	}
-	return fmt.Sprintf("(%d, %s, [%s], %s, %s, (%s, %s, %s, %s))", i, ckind(c.Kind), strings.Join(ls, "; "), coqHeaders(c.Headers), coqClient(c.Client),
-		rid, clist(bs(o.MD)), coqCtx(o.Ctx), fwd)
+	hist, reps := "[]", make([]string, len(o.Reports))
+	if c.Kind == "http" {
+		hist = coqEvents(c.Events, o.Returned)
+	}
+	for j, r := range o.Reports {
+		reps[j] = fmt.Sprintf("(%s, %d)", cz(r[0]), r[1])
+	}
+	return fmt.Sprintf("(%d, %s, [%s], %s, %s, %s, (%s, %s, %s, %s), (%s, [%s], (%s, %d)))", i, ckind(c.Kind), strings.Join(ls, "; "), coqHeaders(c.Headers), coqClient(c.Client), hist,
+		rid, clist(bs(o.MD)), coqCtx(o.Ctx), fwd, clist(bs(o.LogIDs)), strings.Join(reps, "; "), cz(o.RecCode), o.RecLen)
+}
+
+// randEvents: what a handler does with its writer (any interleaving of the calls).
+func randEvents(rng *vh.RNG) []Ev {
+	var evs []Ev
+	for k := rng.Intn(6); k > 0; k-- {
+		switch rng.Intn(6) {
+		case 0, 1:
+			evs = append(evs, Ev{K: "wh", N: vh.Pick(rng, codes)})
+		case 2:
+			evs = append(evs, Ev{K: vh.Pick(rng, []string{"f", "cf"})})
+		default:
+			evs = append(evs, Ev{K: vh.Pick(rng, []string{"w", "w", "cp", "ws"}), N: vh.Pick(rng, []int{0, 1, 2, 9, 40})})
+		}
+	}
+	return evs
 }
 
 func permutations(xs []string) [][]string {
@@ -2040,6 +2160,9 @@ func genStacks(rng *vh.RNG, tier string) []StackCase {
 		c := StackCase{Stream: "stack", Kind: kind, Path: vh.Pick(rng, tracePaths), Seed: int64(rng.Next() >> 1),
 			NewTrace: B(fmt.Sprintf("Tk%d", idx)), NewSpan: B(fmt.Sprintf("Sk%d", idx)), Next: vh.Pick(rng, kinds), Wrap: rng.Bool()}
 		c.Client, c.Shape = pickClient(rng, c.Next)
+		if kind == "http" {
+			c.Events = randEvents(rng)
+		}
 		for _, k := range order {
 			l := Layer{K: k}
 			switch k {
@@ -2087,7 +2210,32 @@ func genStacks(rng *vh.RNG, tier string) []StackCase {
 		cases = append(cases, mk(kind, append(append([]string{"rid", "trace"}, all...), []string{}...), idx), mk(kind, append(append([]string{}, all...), "trace", "rid"), idx+1))
 		idx += 2
 	}
-	n := 300
+	// http: Log layers around / inside Debug (whose writer wrapper is no Flusher) x histories with flushes
+	for _, order := range [][]string{{"rid", "log"}, {"log", "rid", "log"}, {"rid", "log", "debug"}, {"rid", "debug", "log"}, {"log", "debug", "rid", "log"}, {"debug", "rid", "logctx", "log"}} {
+		for _, evs := range [][]Ev{{{K: "f"}}, {{K: "cf"}, {K: "wh", N: 404}, {K: "w", N: 3}}, {{K: "wh", N: 201}, {K: "f"}, {K: "cp", N: 5}}, {{K: "ws", N: 2}, {K: "cf"}, {K: "wh", N: 500}}, {}} {
+			c := mk("http", order, idx)
+			c.Events = evs
+			cases = append(cases, c)
+			idx++
+		}
+	}
+	// grpc: Log outside and inside the request-id layer, trusted and not
+	for _, kind := range []string{"unary", "stream"} {
+		for _, order := range [][]string{{"log", "rid", "log"}, {"logctx", "rid"}, {"rid", "trace", "logctx", "log"}} {
+			for _, ro := range [][]RidOpt{{{K: "use", Flag: true}, {K: "limit", Limit: 4}}, {{K: "use", Flag: false}}, {}} {
+				c := mk(kind, order, idx)
+				c.Headers = []HV{{"X-Request-Id", []B{"caller-id"}}}
+				for j := range c.Layers {
+					if c.Layers[j].K == "rid" {
+						c.Layers[j].Rid = ro
+					}
+				}
+				cases = append(cases, c)
+				idx++
+			}
+		}
+	}
+	n := 380
 	if tier == "thorough" {
 		n = 3000
 	}
@@ -2447,6 +2595,61 @@ func freshIDs(res *vh.Result, workers, per int) int {
 	res.Dist["fresh_ids_generated"] = n
 	res.Dist["fresh_ids_duplicates"] = dups
 	return n
+}
+
+// ================================================================ option constructors
+
+// optionGuards builds option lists from values inside and outside the documented
+// domains with the real constructors (shared ones and the transport wrappers) and
+// notes whether building the list panicked.
+func optionGuards(res *vh.Result, v *strings.Builder) int {
+	vals := []int{-1, 0, 1, 50, 100, 101, 1 << 33}
+	type mk struct {
+		k string
+		n int
+	}
+	var singles []mk
+	for _, k := range []string{"percent", "maxrate", "size"} {
+		for _, n := range vals {
+			singles = append(singles, mk{k, n})
+		}
+	}
+	var lists [][]mk
+	for _, a := range singles {
+		lists = append(lists, []mk{a})
+		for _, b := range singles {
+			lists = append(lists, []mk{a, b})
+		}
+	}
+	idx := 0
+	for li, l := range lists {
+		opts := make([]TOpt, len(l))
+		for i, x := range l {
+			opts[i] = TOpt{K: x.k, N: x.n}
+		}
+		panicked := false
+		func() {
+			defer func() {
+				if recover() != nil {
+					panicked = true
+				}
+			}()
+			o, _, _ := traceOptions(opts, &idGen{}, kinds[li%3], li%2 == 0)
+			middleware.NewTraceOptions(o...).NewSampler()
+		}()
+		// the documented domains, literally
+		want := false
+		for _, x := range l {
+			want = want || (x.k == "percent" && (x.n < 0 || x.n > 100)) || (x.k != "percent" && x.n <= 0)
+		}
+		if panicked != want {
+			record(res, "option-domain-not-enforced", fmt.Sprintf("options %v: panicked=%v, documented domain says %v", opts, panicked, want), map[string]any{"stream": "opts", "opts": opts})
+		}
+		fmt.Fprintf(v, "(%d, %s, %s)\n", idx, coqTOpts(opts), vh.CoqBool(panicked))
+		idx++
+	}
+	res.Dist["option_lists"] = idx
+	return idx
 }
 
 // ================================================================ samplers
@@ -2820,6 +3023,13 @@ func main() {
 	if err := os.WriteFile(filepath.Join(*out, "cases_sampler.txt"), []byte(sv.String()), 0o644); err != nil {
 		panic(err)
 	}
+	var ov strings.Builder
+	if table {
+		evals += optionGuards(res, &ov)
+	}
+	if err := os.WriteFile(filepath.Join(*out, "cases_opts.txt"), []byte(ov.String()), 0o644); err != nil {
+		panic(err)
+	}
 	if loops {
 		n := 2000
 		if *tier == "thorough" {
@@ -2830,7 +3040,7 @@ func main() {
 
 	res.Evaluations = evals
 	res.Distinct = len(distinct)
-	res.Rule = "request id: kinds {http, grpc unary, grpc stream} x option lists (use on/off, header names incl. case variants and the empty name, limits 0, negative, 1, len-1, len, len+1, huge; later options override earlier ones) x inbound values (absent, empty, short, long, multi-byte, invalid UTF-8, several values, first value empty) x optional id already in the context, every case run twice; trace: sequences of 1-5 requests through one middleware instance (sampling 0..100, default, adaptive below its sample size, 0-4 discard patterns with inline flags, anchors and top-level alternations, paths in case variants, inbound trace / parent headers absent, empty, single, multiple, stale context values, nil URL), math/rand reseeded per request so the draw is known; chains: depth 1-4 (thorough 1-8) of servers of random transports calling the next through a client stack (WrapDoer / UnaryClientTrace / StreamClientTrace composed in every order with goahttp.NewDebugDoer, goagrpc.NewInvoker and a user interceptor; HTTP requests GET/POST/PUT/PATCH/DELETE with bytes, string, NoBody, plain-reader and empty bodies); stacks: the middleware chain composed as servers compose it (http nesting; grpc ChainUnaryInterceptor/ChainStreamInterceptor order) with request-id, trace and every transparent layer (Log, LogContext, Debug, PopulateRequestContext, RequestContextKeyVals, SmartRedirectSlashes, StreamCanceler) in every position, the handler reading its context and calling downstream through the traced client; capture: writer histories over WriteHeader/Write/Flush/io.Copy/io.WriteString/ResponseController.Flush in any order (repeated and late WriteHeader calls, Flush first) against httptest.ResponseRecorder (with short writes) and a real net/http server; fixed sampler: every percentage 0..100 x every draw 0..99 run on the real sampler (exhaustive; the quick tier compares the rows around r = p, the extreme draws and percentages 0, 1, 50, 99, 100 with the model, the thorough tier all of them); sampling loops: 0 %, 100 % and default over n requests per transport; log: request-id middleware -> Log middleware -> handler playing a writer history (direct oracle only); concurrent: 16 goroutines x 750 requests with distinct ids through one middleware instance per transport, and 16 goroutines released by a barrier x 800 requests x 3 transports without inbound ids whose generated request, trace and span ids (115 200) must be non-empty, differ from the inbound value and be pairwise distinct (direct oracle only). Non-trivial = request-id case with a non-empty inbound value or context id; trace sequence with an inbound trace id, a sampler draw or more than one request; chain of depth >= 2 whose first server is traced; history with at least two events; stack of at least three layers; distinct = distinct inputs among those"
+	res.Rule = "request id: kinds {http, grpc unary, grpc stream} x option lists (use on/off, header names incl. case variants and the empty name, limits 0, negative, 1, len-1, len, len+1, huge; later options override earlier ones) x inbound values (absent, empty, short, long, multi-byte, invalid UTF-8, several values, first value empty) x optional id already in the context, every case run twice; trace: sequences of 1-5 requests through one middleware instance (sampling 0..100, default, adaptive below its sample size, 0-4 discard patterns with inline flags, anchors and top-level alternations, paths in case variants, inbound trace / parent headers absent, empty, single, multiple, stale context values, nil URL), math/rand reseeded per request so the draw is known; chains: depth 1-4 (thorough 1-8) of servers of random transports calling the next through a client stack (WrapDoer / UnaryClientTrace / StreamClientTrace composed in every order with goahttp.NewDebugDoer, goagrpc.NewInvoker and a user interceptor; HTTP requests GET/POST/PUT/PATCH/DELETE with bytes, string, NoBody, plain-reader and empty bodies); stacks: the middleware chain composed as servers compose it (http nesting; grpc ChainUnaryInterceptor/ChainStreamInterceptor order) with request-id, trace and every transparent layer (Log, LogContext, Debug, PopulateRequestContext, RequestContextKeyVals, SmartRedirectSlashes, StreamCanceler) in every position, the handler reading its context, playing a writer history (http) and calling downstream through a client stack; the id, status and bytes every Log layer printed are observed; option constructors: 462 option lists with values inside and outside the documented domains (exhaustive over 7 values x 3 options, singles and pairs); capture: writer histories over WriteHeader/Write/Flush/io.Copy/io.WriteString/ResponseController.Flush in any order (repeated and late WriteHeader calls, Flush first) against httptest.ResponseRecorder (with short writes) and a real net/http server; fixed sampler: every percentage 0..100 x every draw 0..99 run on the real sampler (exhaustive; the quick tier compares the rows around r = p, the extreme draws and percentages 0, 1, 50, 99, 100 with the model, the thorough tier all of them); sampling loops: 0 %, 100 % and default over n requests per transport; log: request-id middleware -> Log middleware -> handler playing a writer history (direct oracle only); concurrent: 16 goroutines x 750 requests with distinct ids through one middleware instance per transport, and 16 goroutines released by a barrier x 800 requests x 3 transports without inbound ids whose generated request, trace and span ids (115 200) must be non-empty, differ from the inbound value and be pairwise distinct (direct oracle only). Non-trivial = request-id case with a non-empty inbound value or context id; trace sequence with an inbound trace id, a sampler draw or more than one request; chain of depth >= 2 whose first server is traced; history with at least two events; stack of at least three layers; distinct = distinct inputs among those"
 	res.Extra["streams"] = map[string]int{"rid": len(rids), "trace": len(traces), "chain": len(chains), "capture": len(captures), "stack": len(stacks)}
 	b, _ := json.Marshal(cases)
 	if err := os.WriteFile(filepath.Join(*out, "cases.json"), b, 0o644); err != nil {
